@@ -140,6 +140,19 @@ def run_case(case) -> Result:
             )
         elif k > 1 and not has_maa and not stubs_remain:
             res.violate("attractor-reported-more-than-once-without-maa", times=k, attractor=sorted(net.state_tuple(s) for s in a)[:3])
+    # structural part of the mechanism: a skip node is connected to (exactly) trap spaces inside itself and
+    # reaches every minimal trap space it contains
+    import networkx as nx
+
+    mts = net.min_traps()
+    for x in skip_ids:
+        for j in sd.dag.successors(x):
+            if not net.sub(spaces[j], spaces[x]):
+                res.violate("skip-node-successor-outside-node", node=x, space=fmt_space(net, spaces[x]), successor=fmt_space(net, spaces[j]))
+        desc = {spaces[j] for j in nx.descendants(sd.dag, x)}
+        for t in mts:
+            if net.sub(t, spaces[x]) and t not in desc:
+                res.violate("skip-node-misses-minimal-trap", node=x, space=fmt_space(net, spaces[x]), minimal=fmt_space(net, t))
     inter = any(net.inter(spaces[i], spaces[j]) is not None for x, i in enumerate(skip_ids) for j in skip_ids[x + 1 :])
     maa_in_skip = any(net.is_maa(a) and any(net.attr_in_space(a, spaces[i]) for i in skip_ids) for a in att)
     res.nontrivial = inter or maa_in_skip
